@@ -18,11 +18,16 @@ RULE = ("case = sequence over {enqueue one, enqueue two, finish, finish(error), 
         "distinct = by case text")
 TRUSTED = ["asyncio Future/Task.cancel semantics as modelled in Haiway/Model/Queue.lean (wake, must-cancel)",
            "harness/comp_queue.py run_real + monitor"]
-ASSUMPTIONS = ["single consumer task (the class documents this)", "element identity = consecutive integers"]
+ASSUMPTIONS = ["single consumer task (the class documents this)", "the model is parametric in the element values; the harness enqueues arbitrary objects incl. exception instances and identifies them by identity"]
 
 
 class Err(Exception):
     pass
+
+
+class _Box:
+    def __init__(self, n):
+        self.n = n
 
 
 def corpus():
@@ -61,17 +66,39 @@ def run_real(case: str) -> str:
         got: list[str] = []
         state = {"task": None, "flag": False}
 
+        elems: dict[int, int] = {}  # id(object) -> element number
+        keep: list = []
+
+        def element(n: int):
+            """elements are arbitrary objects, including exception instances (the queue must deliver, not raise, them)"""
+            x = [n, Err(n), StopAsyncIteration(n), asyncio.CancelledError(n), None if n else 0, (n,)][n % 6]
+            if x is None or isinstance(x, int | tuple):
+                x = _Box(n)
+            keep.append(x)
+            elems[id(x)] = n
+            return x
+
         async def recv(cell):
             try:
-                got.append(f"elem:{await q.__anext__()}")
+                x = await q.__anext__()
+                got.append(f"elem:{elems[id(x)]}" if id(x) in elems else "elem:?")
+            except BaseException as exc:  # noqa: BLE001
+                if id(exc) in elems:
+                    got.append(f"raised-element:{elems[id(exc)]}")
+                else:
+                    _classify(exc, cell)
+
+        def _classify(exc, cell):
+            try:
+                raise exc
             except StopAsyncIteration:
                 got.append("stop")
             except Err:
                 got.append("err")
             except asyncio.CancelledError:
                 got.append("cancelled" if cell["flag"] else "qcancelled")
-            except BaseException as exc:  # noqa: BLE001
-                got.append(f"other:{type(exc).__name__}")
+            except BaseException as exc2:  # noqa: BLE001
+                got.append(f"other:{type(exc2).__name__}")
 
         def start():
             t = state["task"]
@@ -85,7 +112,7 @@ def run_real(case: str) -> str:
         for tok in case.split():
             if tok in ("e1", "e2"):
                 n = 1 if tok == "e1" else 2
-                vals = list(range(nxt, nxt + n))
+                vals = [element(k) for k in range(nxt, nxt + n)]
                 nxt += n
                 try:
                     q.enqueue(*vals)
@@ -178,6 +205,8 @@ def monitor(case: str, out: str) -> list[str]:
             fails.append("queue.wrong-finish-reason")
     if any(o.startswith("other:") for o in obs):
         fails.append("queue.unexpected-exception")
+    if any(o.startswith("raised-element:") for o in obs):
+        fails.append("queue.element-raised-instead-of-delivered")
     return sorted(set(fails))
 
 
